@@ -452,3 +452,38 @@ Proof.
     unfold count_w at 1. cbn [fst snd]. rewrite IH, app_assoc. reflexivity. }
   rewrite W, write_all_chunked_count, !W. cbn [sr_failed sr_state snd]. split; reflexivity.
 Qed.
+
+(* ---------- exchanges do not leak into each other's dumpers ---------- *)
+Lemma content_run_hooks_notin i w ds hs :
+  ~ In i (map fst ds) -> content i w (run_hooks ds hs) = [].
+Proof.
+  intro H. unfold run_hooks. induction hs as [|h hs IH]; cbn [flat_map]; [reflexivity|].
+  now rewrite content_app, content_emit_all_notin, IH.
+Qed.
+
+(* a dumper that belongs to one exchange of a sequence (a request-level dumper) receives exactly
+   what that exchange alone gives it - nothing of the exchanges before or after it on the same
+   client / connection; a dumper present in every exchange (client level) receives the
+   concatenation *)
+Theorem sequence_concatenates i w xs :
+  content i w (run_sequence xs) = flat_map (fun x => content i w (run_hooks (fst x) (snd x))) xs.
+Proof.
+  unfold run_sequence. induction xs as [|x xs IH]; cbn [flat_map]; [reflexivity|].
+  now rewrite content_app, IH.
+Qed.
+
+Theorem exchange_isolation i w (before : list (list dumper * list hook)) (ds : list dumper) hs
+                           (after : list (list dumper * list hook)) :
+  (forall x, In x before -> ~ In i (map fst (fst x))) ->
+  (forall x, In x after -> ~ In i (map fst (fst x))) ->
+  content i w (run_sequence (before ++ (ds, hs) :: after)) = content i w (run_hooks ds hs).
+Proof.
+  intros Hb Ha. rewrite sequence_concatenates, flat_map_app. cbn [flat_map fst snd].
+  assert (Z : forall xs : list (list dumper * list hook),
+             (forall x, In x xs -> ~ In i (map fst (fst x))) ->
+             flat_map (fun x : list dumper * list hook => content i w (run_hooks (fst x) (snd x))) xs = []).
+  { induction xs as [|x xs IH]; intro H; cbn [flat_map]; [reflexivity|].
+    rewrite content_run_hooks_notin by (apply H; now left).
+    apply IH. intros y Hy. apply H. now right. }
+  now rewrite (Z before Hb), (Z after Ha), app_nil_r.
+Qed.
